@@ -28,7 +28,8 @@ THEOREMS = ["Builder.sim", "Builder.documented_eq_bound_partial", "Builder.kind_
             "Builder.value_eq", "Builder.infer_type_sound", "Builder.infer_elements_sound", "Builder.infer_none_iff",
             "Builder.documented_eq_bound_setter_counterexample", "Builder.documented_eq_bound_annotation_counterexample",
             "Builder.documented_eq_bound_inherited_nonliteral_counterexample",
-            "Builder.documented_eq_bound_inherited_counterexample_old", "Builder.documented_eq_bound_tail_counterexample",
+            "Builder.documented_eq_bound_inherited_counterexample_old", "Builder.documented_eq_bound_tail_counterexample_old",
+            "Builder.kind_eq_qualified_old",
             "Builder.documented_eq_bound_rebinding_counterexample", "Builder.documented_eq_bound_overload_counterexample",
             "Builder.maybeAttribute_eq_find", "Builder.inheritedNonAttrOf_contains", "Builder.rel_put", "Builder.rel_updvar",
             "Builder.documented_eq_bound_del_counterexample", "Builder.documented_eq_bound_else_taken_counterexample",
@@ -69,8 +70,8 @@ ASSUMPTIONS = [
 PARTIAL = {
     "Builder.documented_eq_bound_partial": "hypothesis Subset.inSubset: a name may be bound again by a def or a class (whatever it was bound to) and a variable may be "
         "assigned again - the last binding wins on both sides; excluded: an assignment to a name bound to a function, class or property (pydoctor keeps the definition), "
-        "@x.setter/@x.deleter/@overload, bare annotations, decorators other than bare classmethod/staticmethod/property in a class (at most one per def) or identity "
-        "decorators not named *property, definitions in else/finally parts, a class attribute assigned a NON-literal that shadows an inherited method/class, "
+        "@x.setter/@x.deleter/@overload, bare annotations, decorators other than classmethod/staticmethod/property (bare or builtins.-qualified) in a class (at most one per def) or identity "
+        "decorators not named *property, definitions in the else branch of an if that is not taken / in an except handler that runs, a class attribute assigned a NON-literal that shadows an inherited method/class, "
         "a `__name__` guard that pydoctor enters although it is not taken on import (or the reverse), `del`, `name.__doc__ = text` unless name is a plain function or class of the "
         "namespace (any text, since 6e624d0). (The exception-table clause of inSubset is vacuous for the generated tables: "
         "Builder.basesOk_generated.) Each excluded construct has a counterexample theorem; setter, bare annotation and non-literal inherited shadowing "
@@ -567,7 +568,12 @@ class ProjGen:
                 # `name = other_name` (hunt/C03/2) and, in a class, `name = property(getter)` / `staticmethod(f)` (hunt/C03/4)
                 src = rng.choice([n for n in seen if not sc.labels.get(n)])
                 nm = self.fresh("a")
-                if sc.in_class and src in sc.docable and rng.random() < 0.5:
+                wrap = sc.in_class and src in sc.docable and rng.random() < 0.5
+                if src in sc.docable:
+                    # the object now has a second name: a later `src.__doc__ = …` would be seen through both (the models
+                    # bind values, not references), so the source is no longer a target of __doc__ assignments
+                    sc.docable.remove(src)
+                if wrap:
                     sc.label(nm, "wrap-call")
                     out.append(("wrap", nm, rng.choice(["p", "p", "s", "c"]), src))
                 else:
@@ -1079,13 +1085,16 @@ def ann_parts(ann: str) -> Tuple[str, Optional[List[str]]]:
 # generator labels that mark a genuine, recorded divergence from CPython (specific signatures)
 FINDING_LABELS = [
     ("else-taken", "missing-member:else-except-finally-clause"),
-    ("tail-def", "missing-member:else-except-finally-clause"),
+    ("tail-def", "missing-member:try-else-finally-loop-else-clause"),
     ("alias", "missing-member:alias-assignment"),
     ("wrap-call", "kind:call-of-property-or-wrapper"),
     ("rebound", "kind:definition-then-assignment"),
     ("stacked-descriptors", "kind:stacked-descriptors"),
     ("qualified-spelling", "kind:qualified-decorator-spelling"),
 ]
+
+
+REPAIRED_LABELS = {"tail-def", "qualified-spelling"}     # 99a6d9c, 68b2b27
 
 
 def oracle_scope(ctx: Ctx, sc: Scope, pd: Dict[str, Dict[str, Any]], py: Dict[str, Dict[str, Any]], in_subset: bool,
@@ -1104,13 +1113,17 @@ def oracle_scope(ctx: Ctx, sc: Scope, pd: Dict[str, Dict[str, Any]], py: Dict[st
         labels = sc.labels.get(base, ())
         if not sig.startswith(("invented-member:property-setter", "invented-member:bare-annotation")):
             for lab, fsig in FINDING_LABELS:
-                if lab in labels:
+                if lab in labels and lab not in REPAIRED_LABELS:
                     ctx.fail(fsig, dict(inp, name=name), "%s: %s [%s]" % (sc.qname, what, lab))
                     return
             why = excused(base)
             if why:
                 ctx.count("out-of-subset:" + why)
                 return
+            for lab, fsig in FINDING_LABELS:          # repaired shapes: a mismatch on them is a regression (signature now `fixed`)
+                if lab in labels:
+                    ctx.fail(fsig, dict(inp, name=name), "%s: %s [%s]" % (sc.qname, what, lab))
+                    return
         ctx.fail(sig, dict(inp, name=name), "%s: %s" % (sc.qname, what))
 
     pyn = {n: d for n, d in py.items() if d["kind"] != "imported-or-alias" or "alias" in sc.labels.get(n, ())}
@@ -1812,7 +1825,7 @@ def run_batch(ctx: Ctx, batch, pyres) -> None:
     verdicts = ctx.driver.run_parallel(sub_reqs) if ctx.model_ok else ["out"] * len(sub_reqs)
     for v, (sc, pdinfo, pyinfo, files, inh, rq) in zip(verdicts, meta):
         ctx.count("subset:" + v)
-        if v == "in" and any(x - {"shadows-inherited", "string-after-property", "rebound-ok", "doc-assign-unclean", "qualified-base"} for x in sc.labels.values()):
+        if v == "in" and any(x - {"shadows-inherited", "string-after-property", "rebound-ok", "doc-assign-unclean", "qualified-base", "tail-def", "qualified-spelling"} for x in sc.labels.values()):
             # the generator's labels and the Lean predicate must agree on what is outside the subset
             ctx.disagree("subset-labels", {"scope": sc.qname, "labels": {k: sorted(x) for k, x in sc.labels.items()}, "files": files}, "in", "labelled")
         def tally():
